@@ -815,13 +815,9 @@ class EventSource(object):
                 parts.append(value)
             elif field == u'id':
                 self.leid = eid = value
-            elif field == u'retry':  #
-                try:
-                    value = int(value)
-                except ValueError as ex:
-                    pass  # ignore
-                else:
-                    self.retry = value
+            elif field == u'retry':  # only ASCII digits else ignore
+                if value.isascii() and value.isdigit():
+                    self.retry = int(value)
 
         (yield (eid, ename, edata))
         return
